@@ -256,6 +256,9 @@ if kind == 'c13':
         if r < 0.33 and d < 2: return ('cmp', ('fnq', rnd.choice(['count', 'count', 'value']), ('q', True, [(False, [('filter', [[abstract_atom(d + 1) for _ in range(rnd.choice([1, 2, 3, 3, 4]))] for _ in range(rnd.choice([1, 1, 2, 3]))])])])), rnd.choice(['==', '!=', '<', '>=']), ('num', rnd.choice([0, 1, 2])))
         if r < 0.35: return ('cmp', ('num', rnd.choice([0, 1, 2, 100])), rnd.choice(['==', '!=', '<', '>=']), ('num', rnd.choice([0, 1, 2, 100])))
         if r < 0.6: return ('test', rnd.random() < 0.3, abstract_query(d + 1, True))
+        if r < 0.66 and d < 2:
+            # negation x parentheses around ONE test: `!(@.a)`, `(!@.a)`, `!(!@.a)` - the spellings add further redundant parentheses
+            return ('paren', rnd.random() < 0.6, [[('test', rnd.random() < 0.6, abstract_query(d + 1, True))]])
         if r < 0.8 and d < 2: return ('paren', rnd.random() < 0.3, abstract_logical(d + 1))
         return ('cmp', ('sq', '@', [sqname()]), '==', ('str', rnd.choice(['a', 'b', 'x y'])))
     def abstract_logical(d): return [[abstract_atom(d) for _ in range(rnd.choice([1, 1, 2]))] for _ in range(rnd.choice([1, 1, 2]))]
@@ -336,5 +339,8 @@ if kind == 'c13':
             def obj(depth=0):
                 return {k: (rnd.choice([0, 1, 2, -1, 'a', 'b', None]) if depth >= 2 or rnd.random() < 0.6 else rnd.choice([obj(depth + 1), [obj(depth + 1)]])) for k in rnd.sample(pool, rnd.randint(1, min(4, len(pool))))}
             d = [obj() for _ in range(rnd.choice([2, 3, 4]))] if rnd.random() < 0.7 else obj()
+            r3 = rnd.random()
+            if r3 < 0.15: d = [[obj()], [[obj(), obj()]], d]          # members below arrays nested directly in arrays
+            elif r3 < 0.25: d = {rnd.choice(pool): [[obj()]], rnd.choice(pool): d}
         for _ in range(K):
             print(json.dumps({"group": g, "q": r_query(aq), "doc": d, "tdoc": tag(d)}, ensure_ascii=False))
